@@ -207,14 +207,19 @@ def strategy_for(kind):
 
 
 def twin_strategy(tier):
+    def second(t):
+        """the twin has the first scheduler's kind, table, mapping and rate; it serves the other draw's workload (restricted to the
+        table's flows, judged by that workload's own static flag and ages) or, if nothing is left of it, a copy of the first's"""
+        flows = {f for f, _ in (t[0]["f2c"] or t[0]["table"])}
+        wl = [w for w in t[1]["wl"] if w[1] in flows]
+        sec = dict(t[0])
+        if len(wl) >= 2:
+            sec.update(wl=wl, static=t[1].get("static", False), ages=t[1].get("ages", [0]))
+        return {"scheds": [t[0], sec]}
+
     def pair(kind):
         base = strategy_for(kind)(tier)
-        return st.tuples(base, base).filter(lambda t: t[0]["exact"] == t[1]["exact"] and t[0]["rate"] < 2 ** 30 and t[1]["rate"] < 2 ** 30).map(
-            lambda t: {"scheds": [t[0], dict(t[1], kind=t[0]["kind"], table=t[0]["table"], f2c=t[0]["f2c"],
-                                                                         rate=t[0]["rate"], exact=t[0]["exact"],
-                                                                         wl=[w for w in t[1]["wl"]
-                                                                             if w[1] in {f for f, _ in (t[0]["f2c"] or t[0]["table"])}]
-                                                                         or t[0]["wl"])]})
+        return st.tuples(base, base).filter(lambda t: t[0]["exact"] == t[1]["exact"] and t[0]["rate"] < 2 ** 30 and t[1]["rate"] < 2 ** 30).map(second)
     return st.sampled_from(["WFQ", "WFQ", "VC"]).flatmap(pair)
 
 
